@@ -5,6 +5,8 @@ import (
 	"math/big"
 	"math/rand"
 
+	"github.com/crate-crypto/go-ipa/bandersnatch/fr"
+	"github.com/crate-crypto/go-ipa/banderwagon"
 	"github.com/crate-crypto/go-ipa/common"
 
 	"verif/mon"
@@ -94,6 +96,9 @@ func c14run(c *mon.Ctx, proto string, ops []c14op, pool *Pool, rng *rand.Rand, c
 	lt := common.NewTranscript(proto)
 	rt := ref.NewTranscript(proto)
 	var out c14runRes
+	// one scalar and one point object are re-used (mutated in place) across calls, as an accumulator would be
+	var accS fr.Element
+	var accP banderwagon.Element
 	pending := len(proto)
 	for i, o := range ops {
 		// the label lives in a larger backing array (spare capacity filled with sentinels): a callee that appends to it
@@ -126,7 +131,13 @@ func c14run(c *mon.Ctx, proto string, ops []c14op, pool *Pool, rng *rand.Rand, c
 		case 2:
 			e := FrFromBig(o.s)
 			keep := e
-			lt.AppendScalar(&e, label)
+			if i%2 == 0 {
+				accS = e
+				lt.AppendScalar(&accS, label)
+				e = accS
+			} else {
+				lt.AppendScalar(&e, label)
+			}
 			rt.AppendScalar(o.s, o.label)
 			pending += len(label) + 32
 			if e != keep {
@@ -154,7 +165,13 @@ func c14run(c *mon.Ctx, proto string, ops []c14op, pool *Pool, rng *rand.Rand, c
 			}
 			e := ElemFromRef(pool.P[o.pt], l, flip)
 			keep := e
-			lt.AppendPoint(&e, label)
+			if i%2 == 0 {
+				accP = e
+				lt.AppendPoint(&accP, label)
+				e = accP
+			} else {
+				lt.AppendPoint(&e, label)
+			}
 			rt.AppendPoint(pool.P[o.pt], o.label)
 			pending += len(label) + 32
 			if e != keep {
